@@ -245,3 +245,31 @@ def _subst_rd(body, rd, num):
         out.append("(" + (rd % {"x": "(" + inner + ")", "n": num}) + ")")
         i = k + 1
     return "".join(out)
+
+
+def deep_programs():
+    """structures whose far end is reachable only through a chain of several hundred to a few thousand references of one
+    kind (tuple cells, vector cells, instance fields, map values, closures capturing the previous closure, bound
+    methods of the previous instance, a stack of suspended fibers each holding the next): built iteratively, kept while
+    other allocation goes on, then walked to the far end by a loop. The tracer must reach the far end however deep."""
+    out = []
+    for n in (300, 1100, 2600):
+        out.append(("deep/tuple/%d" % n, "var head = nil; var i = 0;\nwhile i < %d { head = (i, head); i += 1; }\nvar junk = []; for k in 0..40 { junk = [k, [junk.len()]]; }\n"
+                    "var c = head; var sum = 0; var len = 0; while c != nil { sum += c[0]; len += 1; c = c[1]; }\nprint(len); print(sum);\n" % n))
+        out.append(("deep/vec/%d" % n, "var head = []; var i = 0;\nwhile i < %d { head = [i, head, \"s${i}\"]; i += 1; }\nvar junk = []; for k in 0..40 { junk = [k, [junk.len()]]; }\n"
+                    "var c = head; var sum = 0; var len = 0; var last = nil; while c.len() > 0 { sum += c[0]; last = c[2]; len += 1; c = c[1]; }\nprint(len); print(sum); print(last);\n" % n))
+        out.append(("deep/instance/%d" % n, "#[constructor(new)] class Cell { fn val(self) { return self.v; } }\nvar head = nil; var i = 0;\n"
+                    "while i < %d { var c = Cell.new(); c.v = [i]; c.next = head; head = c; i += 1; }\nvar junk = []; for k in 0..40 { junk = [k, [junk.len()]]; }\n"
+                    "var c = head; var sum = 0; var len = 0; while c != nil { sum += c.val()[0]; len += 1; c = c.next; }\nprint(len); print(sum);\n" % n))
+        out.append(("deep/map/%d" % n, "var head = {}; var i = 0;\nwhile i < %d { var m = {}; m.insert(\"v\", (i,)); m.insert(\"next\", head); head = m; i += 1; }\nvar junk = []; for k in 0..40 { junk = [k, [junk.len()]]; }\n"
+                    "var c = head; var sum = 0; var len = 0; while c.has_key(\"v\") { sum += c.get(\"v\")[0]; len += 1; c = c.get(\"next\"); }\nprint(len); print(sum);\n" % n))
+        out.append(("deep/closure/%d" % n, "fn wrap(prev, i) { var mine = [i]; return |k| { if k == 0 { return mine; } return prev; }; }\nvar head = nil; var i = 0;\n"
+                    "while i < %d { head = wrap(head, i); i += 1; }\nvar junk = []; for k in 0..40 { junk = [k, [junk.len()]]; }\n"
+                    "var c = head; var sum = 0; var len = 0; while c != nil { sum += c(0)[0]; len += 1; c = c(1); }\nprint(len); print(sum);\n" % n))
+        out.append(("deep/bound/%d" % n, "#[constructor(new)] class B { fn get(self) { return self; } }\nvar head = nil; var i = 0;\n"
+                    "while i < %d { var b = B.new(); b.v = \"v${i}\"; b.prev = head; head = b.get; i += 1; }\nvar junk = []; for k in 0..40 { junk = [k, [junk.len()]]; }\n"
+                    "var c = head; var len = 0; var last = nil; while c != nil { var o = c(); last = o.v; len += 1; c = o.prev; }\nprint(len); print(last);\n" % n))
+    for n in (40, 120, 300):
+        out.append(("deep/fiber/%d" % n, "var head = nil; var i = 0;\nwhile i < %d { var prev = head; var tag = [i]; var f = Fiber.new(|| { var got = Fiber.yield(tag); return [got, prev]; }); f.call(); head = f; i += 1; }\n"
+                    "var junk = []; for k in 0..40 { junk = [k, [junk.len()]]; }\nvar c = head; var len = 0; while c != nil { var r = c.call(len); len += 1; c = r[1]; }\nprint(len);\n" % n))
+    return [(name, src, []) for name, src in out]
